@@ -210,6 +210,7 @@ pub fn letter_name(c: u8) -> &'static str {
         b'A' => "(await bestmove)",
         b'Q' => "quit",
         b'E' => "(epilogue: stop if needed, await, isready)",
+        b'1' => "(dialect: positions with exactly one legal move; go depth N also carries both clocks)",
         _ => "?",
     }
 }
@@ -281,7 +282,10 @@ fn run_script(script: &[u8], abstract_states: &Mutex<BTreeSet<String>>) {
     PARK.with(|p| p.set(false));
     EXITED.with(|e| e.set(false));
     let mut u = engine::uci::Uci::verif_new(1);
-    u.verif_run_line(POS).unwrap();
+    // dialect 1 (scripts starting with '1'): roots with exactly one legal move, searches that carry clocks as well
+    let forced = script.first() == Some(&b'1');
+    let pos = if forced { "position fen 8/8/8/8/8/5k2/8/r6K w - - 0 1" } else { POS };
+    u.verif_run_line(pos).unwrap();
     let (mut gos, mut isr) = (0usize, 0usize);
     let (mut outstanding, mut can_arrive, mut quit) = (false, false, false);
     let mut hash_now = 1usize;
@@ -303,10 +307,11 @@ fn run_script(script: &[u8], abstract_states: &Mutex<BTreeSet<String>>) {
                     let g = ps.lock().unwrap();
                     assert!((g.tt.occupied as usize) == 0 && (g.tt.occupancy() as usize) == 0, "ucinewgame returned but the shared tables were not reset ({} entries left)", (g.tt.occupied as usize));
                 }
-                assert!(u.verif_run_line(POS).unwrap());
+                assert!(u.verif_run_line(pos).unwrap());
             }
+            b'1' => {}
             b'P' => {
-                assert!(u.verif_run_line("position fen 8/8/8/8/8/8/4P3/K6k w - - 0 1 moves e2e4").unwrap());
+                assert!(u.verif_run_line(if forced { "position fen R6k/8/5K2/8/8/8/8/8 b - - 0 1" } else { "position fen 8/8/8/8/8/8/4P3/K6k w - - 0 1 moves e2e4" }).unwrap());
             }
             b'H' => {
                 // always a value different from the one in force (2, 3, 2, ...)
@@ -320,9 +325,11 @@ fn run_script(script: &[u8], abstract_states: &Mutex<BTreeSet<String>>) {
             }
             b'F' | b'D' | b'G' => {
                 PARK.with(|p| p.set(c == b'G'));
-                let line = match c {
-                    b'F' => "go depth 1",
-                    b'D' => "go depth 3",
+                let line = match (c, forced) {
+                    (b'F', false) => "go depth 1",
+                    (b'D', false) => "go depth 3",
+                    (b'F', true) => "go wtime 600000 btime 600000 depth 1",
+                    (b'D', true) => "go wtime 600000 btime 600000 winc 1000 binc 1000 movestogo 40 depth 3",
                     _ => "go infinite",
                 };
                 assert!(u.verif_run_line(line).unwrap());
@@ -474,14 +481,22 @@ fn case_json(script: &[u8], bound: usize, choices: &[usize]) -> J {
 
 /// E7 for C05: one script on the optimised binary with real threads (one schedule, labelled so).
 fn blackbox_script(bin: &str, script: &[u8], tiny_tree: bool, mode: u8) -> Result<(), String> {
-    // mode 0: depth limits; 1: Move Overhead 1000 with movetime / clock limits; 2: odd but valid phrasings of go
+    // mode 0: depth limits; 1: Move Overhead 1000 with movetime / clock limits; 2: odd but valid phrasings of go;
+    // 3: positions with exactly one legal move, searches limited by clocks only; 4: limits of zero (movetime 0, a flag
+    // that has fallen, the mover's own clock not given)
     let overhead_mode = mode == 1;
     use std::time::Duration;
     let t = Duration::from_secs(20);
     let mut e = blackbox::Engine::start(bin)?;
     e.send("setoption name Hash value 1")?;
     // tiny tree: bare kings — an unbounded search runs out of depth within milliseconds
-    let base = if tiny_tree { "position fen 8/8/8/3k4/8/3K4/8/8 w - - 0 1" } else { "position startpos" };
+    let base = if mode == 3 {
+        "position fen 8/8/8/8/8/5k2/8/r6K w - - 0 1"
+    } else if tiny_tree {
+        "position fen 8/8/8/3k4/8/3K4/8/8 w - - 0 1"
+    } else {
+        "position startpos"
+    };
     e.send(base)?;
     // overhead mode: the largest advertised Move Overhead, and finite searches limited by a small movetime
     if overhead_mode {
@@ -507,7 +522,13 @@ fn blackbox_script(bin: &str, script: &[u8], tiny_tree: bool, mode: u8) -> Resul
                 e.send("ucinewgame")?;
                 e.send(base)?;
             }
-            b'P' => e.send(if tiny_tree { "position fen 8/8/8/3k4/8/3K4/8/8 w - - 0 1 moves d3e3" } else { "position startpos moves e2e4" })?,
+            b'P' => e.send(if mode == 3 {
+                "position fen R6k/8/5K2/8/8/8/8/8 b - - 0 1"
+            } else if tiny_tree {
+                "position fen 8/8/8/3k4/8/3K4/8/8 w - - 0 1 moves d3e3"
+            } else {
+                "position startpos moves e2e4"
+            })?,
             b'H' => e.send("setoption name Hash value 2")?,
             b'F' | b'D' | b'G' => {
                 if c == b'G' && tiny_tree {
@@ -522,10 +543,14 @@ fn blackbox_script(bin: &str, script: &[u8], tiny_tree: bool, mode: u8) -> Resul
                 e.send(match (c, mode) {
                     (b'F', 0) => "go depth 1",
                     (b'F', 1) => "go movetime 30",
-                    (b'F', _) => "go btime 300 wtime -50 binc 0 winc 0 depth 1",
+                    (b'F', 2) => "go btime 300 wtime -50 binc 0 winc 0 depth 1",
+                    (b'F', 3) => "go wtime 2000 btime 2000",
+                    (b'F', _) => "go movetime 0",
                     (b'D', 0) => "go depth 3",
                     (b'D', 1) => "go wtime 300 btime 300 movestogo 3",
-                    (b'D', _) => "go  depth 3   movetime 100000000",
+                    (b'D', 2) => "go  depth 3   movetime 100000000",
+                    (b'D', 3) => "go wtime 1000 btime 1000 winc 100 binc 100 movestogo 10",
+                    (b'D', _) => "go wtime 0 btime 0 winc 0 binc 0",
                     _ => "go infinite",
                 })?;
                 gos += 1;
@@ -583,13 +608,26 @@ fn c05(run: &Run) -> i32 {
             items.push((s.clone(), b));
         }
     }
-    let abs_by_len: Vec<Arc<Mutex<BTreeSet<String>>>> = (0..=maxlen).map(|_| Arc::new(Mutex::new(BTreeSet::new()))).collect();
+    // dialect 1: the scripts with a finite search, on roots with one legal move and with clocks on the go line
+    let (dl, db) = if run.quick() { (3usize, 2usize) } else { (4, 3) };
+    let mut dialect_items = 0usize;
+    for s in &scripts {
+        if s.len() <= dl && (s.contains(&b'F') || s.contains(&b'D')) {
+            let mut t = vec![b'1'];
+            t.extend(s.iter().copied());
+            items.push((t, db));
+            dialect_items += 1;
+        }
+    }
+    run.note(format!("dialect 1 (roots with exactly one legal move, clocks on the go line): {dialect_items} scripts of length <= {dl} with a finite search, preemption bound {db}"));
+    let abs_by_len: Vec<Arc<Mutex<BTreeSet<String>>>> = (0..=maxlen + 1).map(|_| Arc::new(Mutex::new(BTreeSet::new()))).collect();
     let totals = Mutex::new((0u64, 0u64, 0usize)); // executions, steps, max depth
     let failing: Mutex<Vec<(Vec<u8>, usize, String, Vec<usize>)>> = Mutex::new(vec![]);
     let outcomes: Mutex<BTreeSet<String>> = Mutex::new(BTreeSet::new());
     util::par_for(items.len(), |i| {
         let (s, b) = &items[i];
-        let e = explore(s, *b, &abs_by_len[s.len()]);
+        // (the abstract states of dialect scripts are kept apart from the fixpoint computation: last bucket)
+        let e = explore(s, *b, if s.first() == Some(&b'1') { &abs_by_len[maxlen + 1] } else { &abs_by_len[s.len()] });
         let mut t = totals.lock().unwrap();
         t.0 += e.executions;
         t.1 += e.steps;
@@ -661,7 +699,7 @@ fn c05(run: &Run) -> i32 {
             let n = std::sync::atomic::AtomicU64::new(0);
             util::par_for(bb.len(), |i| {
                 n.fetch_add(1, std::sync::atomic::Ordering::Relaxed);
-                for (tiny, overhead) in [(false, 0u8), (true, 0), (false, 1), (false, 2)] {
+                for (tiny, overhead) in [(false, 0u8), (true, 0), (false, 1), (false, 2), (false, 3), (false, 4)] {
                     // the bare-kings variant only differs for scripts with an unbounded search, the overhead variant for
                     // scripts with a finite one
                     if (tiny && !bb[i].contains(&b'G')) || (overhead > 0 && !(bb[i].contains(&b'F') || bb[i].contains(&b'D'))) {
@@ -669,12 +707,12 @@ fn c05(run: &Run) -> i32 {
                     }
                     if let Err(m) = blackbox_script(&bin, bb[i], tiny, overhead) {
                         let lines: Vec<J> = bb[i].iter().map(|c| J::s(letter_name(*c))).collect();
-                        run.violation("blackbox-hang", format!("blackbox-hang|script {} tiny_tree={tiny} overhead={overhead}", String::from_utf8_lossy(bb[i])), J::obj(vec![("kind", J::s("uci-blackbox-script")), ("script", J::s(String::from_utf8_lossy(bb[i]).to_string())), ("tiny_tree", J::Bool(tiny)), ("mode", J::i(overhead as i64)), ("lines", J::Arr(lines))]), format!("optimised binary, script [{}] ({}{}): {m}", script_text(bb[i]), if tiny { "bare kings: the unbounded search exhausts its depth" } else { "start position" }, match overhead { 1 => "; Move Overhead 1000, finite searches limited by movetime 30 / clocks 300", 2 => "; go phrased with a negative clock / double blanks / a movetime that cannot bind", _ => "" }));
+                        run.violation("blackbox-hang", format!("blackbox-hang|script {} tiny_tree={tiny} overhead={overhead}", String::from_utf8_lossy(bb[i])), J::obj(vec![("kind", J::s("uci-blackbox-script")), ("script", J::s(String::from_utf8_lossy(bb[i]).to_string())), ("tiny_tree", J::Bool(tiny)), ("mode", J::i(overhead as i64)), ("lines", J::Arr(lines))]), format!("optimised binary, script [{}] ({}{}): {m}", script_text(bb[i]), if tiny { "bare kings: the unbounded search exhausts its depth" } else { "start position" }, match overhead { 1 => "; Move Overhead 1000, finite searches limited by movetime 30 / clocks 300", 2 => "; go phrased with a negative clock / double blanks / a movetime that cannot bind", 3 => "; positions with exactly one legal move, searches limited by clocks only", 4 => "; limits of zero: go movetime 0 / go wtime 0 btime 0", _ => "" }));
                     }
                 }
             });
             let k = n.load(std::sync::atomic::Ordering::Relaxed);
-            run.family("E7-SCRIPTS", &format!("well-formed scripts of length <= {bb_len} (quick tier: all up to length 3, of length 4 those with a go, a stop and a ucinewgame/setoption) on the optimised binary with real threads; go infinite on the start position and, for scripts with an unbounded search, also on bare kings (the search exhausts its depth); scripts with a finite search also with Move Overhead 1000 and movetime / clock limits, and with odd but valid phrasings of go (negative clock, double blanks); 20 s per awaited answer"), k, k, true, "one schedule per script — a sample of schedules, not an enumeration");
+            run.family("E7-SCRIPTS", &format!("well-formed scripts of length <= {bb_len} (quick tier: all up to length 3, of length 4 those with a go, a stop and a ucinewgame/setoption) on the optimised binary with real threads; go infinite on the start position and, for scripts with an unbounded search, also on bare kings (the search exhausts its depth); scripts with a finite search also with Move Overhead 1000 and movetime / clock limits, with odd but valid phrasings of go (negative clock, double blanks), on positions with exactly one legal move under clock limits, and with limits of zero; 20 s per awaited answer"), k, k, true, "one schedule per script — a sample of schedules, not an enumeration");
             *run.traces_validated.lock().unwrap() += k;
         }
     }
